@@ -1069,7 +1069,7 @@ class Process:
         num_cpus = cpu_count() or 1
 
         def timer():
-            return _timer() * num_cpus
+            return _timer()
 
         if blocking:
             st1 = timer()
@@ -1088,7 +1088,10 @@ class Process:
                 return 0.0
 
         delta_proc = (pt2.user - pt1.user) + (pt2.system - pt1.system)
-        delta_time = st2 - st1
+        # Scaled by the number of CPUs *now*: the samples themselves are
+        # plain timestamps, so a CPU count which changed since the
+        # previous call (hot-plug) does not distort the interval.
+        delta_time = (st2 - st1) * num_cpus
         # reset values for next call in case of interval == None
         self._last_sys_cpu_times = st2
         self._last_proc_cpu_times = pt2
